@@ -683,7 +683,7 @@ def _opaque_reads(ex, name, argv, st):
 
 
 UF_RET = {"uf_isWorkingTime": T.Bool, "uf_tzoff": T.Real, "uf_sbidx": T.Int, "uf_minsum": T.Int, "uf_dur": T.Real, "uf_lower": T.Str, "uf_path_of": T.Ref("Path"), "uf_os": T.Ref("OS"), "uf_bytes_of": T.Str, "uf_text_of": T.Str, "uf_sha256": T.Str, "uf_json_report_id": T.Str, "uf_encode": T.Str, "uf_bangs": T.Int, "uf_nobang": T.Str, "uf_tzvalid": T.Bool,
-          "uf_split": T.List(T.Str, region="strparts"), "uf_walk": T.Ref("Task"), "uf_walkok": T.Bool}
+          "uf_split": T.List(T.Str, region="strparts"), "uf_walk": T.Ref("Task"), "uf_walkok": T.Bool, "uf_inherited": T.Bool}
 
 
 def parse_ty(spec: str):
